@@ -1,4 +1,5 @@
 import TIV.Common.Block
+import TIV.C04.Softfloat
 /-!
 # C02 model — the part of `_get_render_data` after Pillow that decides transparency
 (src/term_image/image/common.py:1419-1525): with `round_alpha`, `a = [0 if val < alpha else 255 …]`
@@ -8,6 +9,11 @@ namespace TIV.C02
 
 /-- `[0 if val < thr else 255 for val in a]` -/
 def roundAlpha (thr : Nat) (a : List Nat) : List Nat := a.map fun v => if v < thr then 0 else 255
+
+/-- `alpha = round(alpha * 255)` for the float `alpha` given by its binary64 image:
+    one correctly rounded multiplication, then Python's round-half-even -/
+def threshold (alphaBits : Nat) : Option Nat :=
+  (C04.SF.ofBits alphaBits).map fun a => C04.SF.round (C04.SF.mul a (C04.SF.ofNat 255))
 
 /-- Pillow's `alpha_composite` of a source pixel channel `s` with alpha `a` over an opaque
     background channel `b` (both 0…255): `ImagingAlphaComposite` with `dst.a = 255` reduces to
